@@ -8,6 +8,7 @@
   A `View` is what an outside observer sees: the call's outputs and the storage directory.
 -/
 import UpdaterModel.Model.Ops
+import UpdaterModel.Model.Sched
 
 namespace Updater
 
@@ -19,6 +20,8 @@ structure View where
   pdir : Bool
   arts : Arts
   junk : List String
+  /-- lock / network actions of the calling thread, as logged by the hooks (implementation views) -/
+  la : List Act := []
 deriving Repr, Inhabited
 
 def View.art (v : View) (n : Nat) : Option Art := v.arts.lookup n
@@ -682,6 +685,21 @@ def mon05 (libs : List (String × Bytes)) : Monitor G14 where
           else []
         | _, _ => []) : Checks)
     | _, _, _ => []
+
+/-! #### C12: the observed lock / network actions of every call are well-formed -/
+
+def sectionsAtomicB : List Act → Bool
+  | [] => true
+  | .A :: .R :: rest => sectionsAtomicB rest
+  | .A :: _ => false
+  | _ :: rest => sectionsAtomicB rest
+
+def mon12 : Monitor G14 where
+  init := {}
+  next _ g op _ _ := { cfg := trackCfg g.cfg op }
+  checks _ _ _ _ post :=
+    [ (wellFormed post.la, "C12: network callback under the state lock, lock re-entry, update lock taken under the state lock, or unbalanced release"),
+      (sectionsAtomicB post.la, "C12: something other than the release follows an acquisition of the state lock") ]
 
 /-! #### C13: use before initialisation returns the documented defaults and touches nothing -/
 
